@@ -271,6 +271,14 @@ class Gen(object):
             self.meta[sid] = m
         return sid
 
+    def local_zone_use(self, client):
+        """A conversion to the (possibly just changed) local zone."""
+        a = self.pick("tp", trunc=False)
+        if a is None:
+            return self.seed()
+        return self.op("tp.to_local_time_zone", [a], result="tp",
+                       client=client, **self.tp_meta(a))
+
     def tp_meta(self, src, dyears=0, **over):
         m = {k: v for k, v in self.meta[src].items() if k != "type"}
         m["derived"] = True
@@ -566,11 +574,20 @@ def gen_random(rng, index):
         g.seed()
     nsteps = rng.randint(20, 150)
     p_seed = rng.choice([0.02, 0.05, 0.1])
+    # the process's local zone may change while values live on (a daylight
+    # saving transition in a long-running process, TZ + tzset)
+    p_world = rng.choice([0, 0, 0.03, 0.08])
     client = 0
     for _ in range(nsteps):
         if rng.random() < 0.5:
             client = rng.randrange(nclients)
-        if rng.random() < p_seed:
+        if rng.random() < p_world:
+            g.steps.append({"k": "world", "act": rng.choice(
+                [["tzset", 0], ["tzset", 1], ["tzset", 2], ["dst", 0],
+                 ["dst", 1]])})
+            if rng.random() < 0.7:
+                g.local_zone_use(client)
+        elif rng.random() < p_seed:
             g.seed()
         else:
             g.step(client)
@@ -726,6 +743,15 @@ def gen_directed(rng, index):
     if typ == "tp" and not meta["trunc"]:
         for attr in TP_NOARG:
             op("tp." + attr, [x])
+        # the local zone moves while the results above live on
+        steps.append({"k": "world", "act": ["tzset", 1]})
+        op("tp.to_local_time_zone", [p1])
+        op("tp.to_local_time_zone", [x])
+        steps.append({"k": "world", "act": ["dst", 1]})
+        op("tp.to_local_time_zone", [p2])
+        steps.append({"k": "world", "act": ["tzset", 0]})
+        steps.append({"k": "world", "act": ["dst", 0]})
+        op("tp.to_local_time_zone", [x])
         for d in (d1, dm, d0, dw, dh):
             op("tp.add", [x, d])
             op("tp.radd", [x, d])
@@ -853,6 +879,11 @@ def gen_directed(rng, index):
 
 # --------------------------------------------------------------------------
 # execution
+
+# other configurations of the process's local zone (timezone, altzone,
+# daylight) a run can move to
+ALT_ZONES = [[-19800, -19800, 0], [28800, 25200, 1]]
+
 
 def lib_classes():
     from metomi.isodatetime import data
@@ -1316,8 +1347,9 @@ class Sim(object):
     def run(self):
         from metomi.isodatetime import data, parsers
         trace = self.trace
-        facade = world.TimeFacade(world.SimClock(946684800 * 10 ** 6),
-                                  [trace["zone"]])
+        facade = world.TimeFacade(
+            world.SimClock(946684800 * 10 ** 6),
+            [trace["zone"]] + trace.get("alt_zones", ALT_ZONES))
         world.install_time(facade)
         world.set_env(world.ENV_CAL, None)
         world.set_env(world.ENV_REF, None)
@@ -1345,6 +1377,12 @@ class Sim(object):
         self.api_sweep()
         classes = lib_classes()
         for step_no, step in enumerate(trace["steps"]):
+            if step["k"] == "world":
+                facade.apply(step["act"])
+                self.count("fault.world_" + step["act"][0])
+                self.sig.append("world:" + step["act"][0])
+                self.check_all(step_no, "world." + step["act"][0], [], False)
+                continue
             if step["k"] == "mk":
                 try:
                     with kernel.guarded():
@@ -1476,6 +1514,9 @@ def prune(trace):
     have = set()
     steps = []
     for step in trace["steps"]:
+        if step["k"] == "world":
+            steps.append(step)
+            continue
         if step["k"] == "mk":
             have.add(step["id"])
             steps.append(step)
